@@ -343,6 +343,10 @@ func (c *Conn) Write(b []byte) (int, error) {
 		data = data[n:]
 	}
 	if werr != nil {
+		// a failed write means the connection is broken: the peer still reads what was
+		// written before the failure, then sees a reset; this end is dead at once
+		c.Peer.rd.cutAt = int64(len(h.Written))
+		c.reset = true
 		return len(b), werr
 	}
 	return len(b), nil
